@@ -11,6 +11,8 @@ stdin: JSON spec
   kill_at_commit  : k   -> os._exit(9) just BEFORE the k-th SQLAlchemy Session.commit
   kill_after_commit : k -> ... just AFTER it
   port      : fixed port to listen on (needed for resume runs: same URLs)
+  unreachable : { host : {kind: 'refused' | 'nxdomain', path} }  connections to that host are refused / its name does not resolve;
+              every attempt is written to requests.log as a request for <path> (and counts for kill_at_request)
   bind_ip   : loopback address to listen on and to resolve every host name to (default 127.0.0.1); with a fixed port and a
               per-run address, concurrent runs of one site see the same URL strings
 stdout: one JSON line {exit_code, port, commits}
@@ -95,8 +97,25 @@ import wpull.network.dns as wdns  # noqa: E402
 compat.patch_sqlalchemy()
 
 
+DEAD = '127.255.77.1'       # outside the range of the per-run listening addresses: nothing ever listens there
+
+
 @compat.coroutine
 def _resolve(self, host):
+    un = (spec.get('unreachable') or {}).get(host)
+    if un:
+        # a host whose connections are refused / whose name does not resolve: every attempt is logged like a request (no server sees it)
+        with _lock:
+            _count[0] += 1
+            n = _count[0]
+            LOG.write((json.dumps({'n': n, 'method': 'GET', 'host': host, 'hosthdr': '%s:%d' % (host, PORT), 'path': un['path'],
+                                   'headers': {}, 'unreachable': un['kind']}) + '\n').encode())
+            if spec.get('kill_at_request') == n:
+                os._exit(9)
+        if un['kind'] == 'nxdomain':
+            from wpull.errors import DNSNotFound
+            raise DNSNotFound('scripted: no such name')
+        return wdns.ResolveResult([wdns.AddressInfo(DEAD, socket.AF_INET, None, None)])
     return wdns.ResolveResult([wdns.AddressInfo(BIND, socket.AF_INET, None, None)])
     yield  # pragma: no cover
 
